@@ -357,7 +357,10 @@ def check_C06(ctx):
     hitobj_cases(ctx, "residue", 4, 2, clear=False, emit=False, invariants=("RejectedHaveNoEffect",), expect_violation=True)
     plan = [("residue", 4, 2), ("combo", 0, 3), ("num", 0, 2), ("nodes", 0, 2 if thorough else 1), ("bank", 0, 2 if thorough else 1)]
     if thorough:
-        plan += [("residue", 5, 2), ("residue", 4, 3), ("path", 4, 1)]
+        plan += [("path", 4, 1)]
+        # three-line histories over the reduced residue alphabet: model checking only (5 M states; the replay of the two-line
+        # histories and the long random relations below bind the same actions to the code)
+        hitobj_cases(ctx, "residuesmall", 4, 3, emit=False, invariants=("RejectedHaveNoEffect",))
     for (a, n, ml) in plan:
         f = hitobj_cases(ctx, a, n, ml)
         summ = harness(ctx, ["hitobj", "replay", "--prop", "C06", "--spellings", "2"], cases_file=f, name="hitobj-" + a,
